@@ -11,6 +11,8 @@
        "outside":[cp…]   `keepOutside text ranges`
        "found":{"ok":[[beg,end]…]} | {"err":"noEnd","start":n,"beg":n} | {"err":"fuel"}
                          `metadataRanges findEnd text`, findEnd = the table "ends" (absent or null: no end)
+       "ownEnds":[[beg,end|null]…]   the model's OWN `metadataEnd text beg` at every position of the table "ends"
+       "foundOwn": like "found"      `metadataRangesOwn text` — search loop with the model's own end finder
        "tags":[[start,beg]…]}   every match of the tag regex, by repeated `findTag`
   {"op":"metaSplit","md":[[key,value]…]}        keys: "s:"+name for a str key, anything else for other keys
     → {"kw":[[key,value]…],"user":[[key,value]…]}   `decodeSplit specialNames md`
@@ -96,6 +98,9 @@ def opMetaSplice (j : Json) : Json :=
           ("erased", charsJ (spliceAll text (plain.map (fun r => (r.1, r.2, []))))),
           ("outside", charsJ (keepOutside text plain)),
           ("found", foundJ (metadataRanges (tableEnd ends) text)),
+          ("ownEnds", .arr (ends.map (fun x => Json.arr #[natJ x.1,
+              match metadataEnd text x.1 with | some e => natJ e | none => .null])).toArray),
+          ("foundOwn", foundJ (metadataRangesOwn text)),
           ("tags", .arr ((allTags text (text.length + 1) 0).map (fun r => Json.arr #[natJ r.1, natJ r.2])).toArray)])
       | .error e, _, _ => .error e
       | _, .error e, _ => .error e
